@@ -118,3 +118,9 @@ C("C06",
   "Trusted: the panic hook / allocator / process-isolation monitors of the harness. The AIR of the harness family is written defensively, so that remaining panics are in library code.",
   "fault-attributing fuzz-style workload under panic, overflow, allocation and process-death monitors",
   "DESIGN.md §5 C06")
+
+C("C14",
+  "The same driver source is built without and with the `concurrent` feature. A dump of ~460 deterministic results (FFT/iFFT/LDE of 512..8192 points over four field types, twiddles, power series, batch inversion with zeros, add_in_place, mul_acc, transpose_slice, apply_drp, hash_values, Merkle trees of 512..16384 leaves, row/column-matrix LDE of short-wide (254/255 columns x 16..64 rows, extension columns) and long-narrow matrices with their row commitments, and nine full proofs whose trace/constraint/FRI-layer commitments, OOD frame and context are dumped and which are then verified) is produced by the serial build and by the concurrent build under 13 pool sizes 1..64 and 3 oversubscribed CPU pinnings (repeated in thorough); every line must equal the serial one and every concurrent proof must verify. The workloads also run under valgrind memcheck (32 threads, quick; 8 threads thorough), ThreadSanitizer with -Zbuild-std (3/8/32 threads, thorough) and Miri (thorough), whose reports are violations.",
+  "Only the schedules produced by these pool sizes, pinnings and repetitions are observed; results are compared through 64-bit hashes; Miri runs without the aliasing model (dependency noise).",
+  "differential dump comparison serial vs concurrent builds under a thread-pool sweep + memcheck / TSan / Miri",
+  "DESIGN.md §5 C14")
